@@ -345,3 +345,89 @@ Example C16_cycle_out_of_fuel :
   create_types_table te perm_id (EStruct (TStruct "T")) = None /\
   go_resolve te (TStruct "T") "V" = RField [1] (TNum KInt) true /\ go_resolve te (TStruct "T") "Q" = RNone.
 Proof. vm_compute. repeat split. Qed.
+
+(* ------------------------------------------------------------------------------------------
+   The model table IS the source (GenTables): conf/types_table.go is read statement by statement by
+   /verif/translator/gen_tables.go on every run into gen/GenTables.v (CreateTypesTable,
+   FieldsFromStruct, dereference as terms of the DSL of Ty/TableRules.v); interpreting the
+   REGENERATED statements gives the hand model, for every declaration set, iteration order and
+   environment of the model's fragment.  reflect (Kind, Elem, NumField, Field, FieldByName,
+   NumMethod, Method, MapKeys, MapIndex) is the oracle on the type descriptions of Ty/Types.v.
+   Fragment (decidable): `env_in_fragment`, `te_plain` - no declared type whose underlying type is
+   a pointer or struct along a pointer chain (`type P *S`, `type N S`), no pointer to a map as
+   environment (Go panics in MapKeys), map keys of kind String are `string` itself.  Outside it
+   the statement is false: the hand model is narrower than Go's reflect (C16_model_table_is_source_refuted;
+   replayed on the real CreateTypesTable). *)
+Require X.Ty.TableRules X.gen.GenTables X.Bridge.BrTables.
+
+Theorem C16_gentables_recognised : forallb X.Ty.TableRules.fdef_ok X.gen.GenTables.funcs = true.
+Proof. exact X.Bridge.BrTables.gentables_recognised. Qed.
+Print Assumptions C16_gentables_recognised.
+
+Theorem C16_model_table_is_source : forall te perm env tb fuel,
+  (forall l e, In e (perm l) -> In e l) ->
+  create_types_table te perm env = Some tb ->
+  X.Ty.TableRules.env_in_fragment env = true -> X.Ty.TableRules.te_plain te = true ->
+  X.Ty.TableRules.tables_fuel te <= fuel ->
+  X.Ty.TableRules.gen_create_types_table X.gen.GenTables.funcs te perm fuel env = X.Ty.TableRules.Got tb.
+Proof. exact X.Bridge.BrTables.create_types_table_bridge. Qed.
+Print Assumptions C16_model_table_is_source.
+
+(* under the hypothesis the theorems of this file use for `perm` *)
+Theorem C16_model_table_is_source_perm : forall te perm env tb fuel,
+  (forall l, Permutation (perm l) l) ->
+  create_types_table te perm env = Some tb ->
+  X.Ty.TableRules.env_in_fragment env = true -> X.Ty.TableRules.te_plain te = true ->
+  X.Ty.TableRules.tables_fuel te <= fuel ->
+  X.Ty.TableRules.gen_create_types_table X.gen.GenTables.funcs te perm fuel env = X.Ty.TableRules.Got tb.
+Proof.
+  exact (fun te perm env tb fuel Hp =>
+           X.Bridge.BrTables.create_types_table_bridge te perm env tb fuel (fun l e H => Permutation_in e (Hp l) H)).
+Qed.
+Print Assumptions C16_model_table_is_source_perm.
+
+Theorem C16_model_fields_from_struct_is_source : forall te perm n t tb fuel,
+  ffs te perm n t = Some tb -> X.Ty.TableRules.plain t = true -> X.Ty.TableRules.te_plain te = true ->
+  n + Nat.max (X.Ty.TableRules.ptr_depth t) (X.Ty.TableRules.te_ptr_depth te) + 1 < fuel ->
+  X.Ty.TableRules.gen_fields_from_struct X.gen.GenTables.funcs te perm fuel t = X.Ty.TableRules.Got tb.
+Proof. exact X.Bridge.BrTables.fields_from_struct_bridge. Qed.
+Print Assumptions C16_model_fields_from_struct_is_source.
+
+Theorem C16_model_dereference_is_source : forall t fuel,
+  X.Ty.TableRules.plain t = true -> X.Ty.TableRules.ptr_depth t < fuel ->
+  X.Ty.TableRules.gen_dereference X.gen.GenTables.funcs fuel t = X.Ty.TableRules.Got (dereference t).
+Proof. exact X.Bridge.BrTables.dereference_bridge. Qed.
+Print Assumptions C16_model_dereference_is_source.
+
+Definition C16_model_table_is_source_full_statement : Prop := X.Bridge.BrTables.create_types_table_bridge_full_statement.
+Theorem C16_model_table_is_source_refuted :
+  create_types_table X.Bridge.BrTables.TWit.te perm_id X.Bridge.BrTables.TWit.named_ptr = Some [] /\
+  X.Ty.TableRules.gen_create_types_table X.gen.GenTables.funcs X.Bridge.BrTables.TWit.te perm_id
+      (X.Ty.TableRules.tables_fuel X.Bridge.BrTables.TWit.te) X.Bridge.BrTables.TWit.named_ptr
+    = X.Ty.TableRules.Got [("Y", mkTag TString false false); ("X", mkTag (TNum KInt) false false)] /\
+  create_types_table X.Bridge.BrTables.TWit.te perm_id X.Bridge.BrTables.TWit.ptr_map = Some [("a", mkTag TBool false false)] /\
+  X.Ty.TableRules.gen_create_types_table X.gen.GenTables.funcs X.Bridge.BrTables.TWit.te perm_id
+      (X.Ty.TableRules.tables_fuel X.Bridge.BrTables.TWit.te) X.Bridge.BrTables.TWit.ptr_map = X.Ty.TableRules.Panics /\
+  create_types_table X.Bridge.BrTables.TWit.te perm_id X.Bridge.BrTables.TWit.named_key = Some [] /\
+  X.Ty.TableRules.gen_create_types_table X.gen.GenTables.funcs X.Bridge.BrTables.TWit.te perm_id
+      (X.Ty.TableRules.tables_fuel X.Bridge.BrTables.TWit.te) X.Bridge.BrTables.TWit.named_key
+    = X.Ty.TableRules.Got [("a", mkTag TBool false false)] /\
+  ~ C16_model_table_is_source_full_statement.
+Proof. exact X.Bridge.BrTables.create_types_table_bridge_refuted. Qed.
+Print Assumptions C16_model_table_is_source_refuted.
+
+(* non-vacuity: *Outer (embedded pointer, unexported field, methods on both receivers) and a map
+   environment are inside the fragment; the interpreted source yields the model's six-entry table *)
+Example C16_model_table_is_source_nonvacuous :
+  X.Ty.TableRules.env_in_fragment X.Bridge.BrTables.TWit.outer_ptr = true /\
+  X.Ty.TableRules.env_in_fragment X.Bridge.BrTables.TWit.a_map = true /\
+  X.Ty.TableRules.te_plain X.Bridge.BrTables.TWit.te = true /\
+  (forall l e, In e (perm_rev l) -> In e l) /\
+  exists tb, create_types_table X.Bridge.BrTables.TWit.te perm_rev X.Bridge.BrTables.TWit.outer_ptr = Some tb /\ List.length tb = 6.
+Proof.
+  exact (conj (proj1 X.Bridge.BrTables.create_types_table_bridge_inhabited)
+        (conj (proj1 (proj2 X.Bridge.BrTables.create_types_table_bridge_inhabited))
+        (conj (proj1 (proj2 (proj2 X.Bridge.BrTables.create_types_table_bridge_inhabited)))
+        (conj X.Bridge.BrTables.perm_rev_sub
+              (ex_intro _ _ (conj (proj1 (proj2 (proj2 (proj2 X.Bridge.BrTables.create_types_table_bridge_inhabited)))) eq_refl)))))).
+Qed.
